@@ -8,6 +8,7 @@ import Miden.Lemmas.Pure
 import Miden.Lemmas.Trunc
 import Miden.Lemmas.Memcopy
 import Miden.Lemmas.PipeMem
+import Miden.Lemmas.Forward
 import Miden.Generated.StdlibSys
 namespace Miden.C18
 open Miden
@@ -123,6 +124,19 @@ example : ((Vm.exec {} 20 Generated.mem_pipe_double_words_to_memory
 example : (Vm.exec {} 20 Generated.mem_pipe_double_words_to_memory
       { stack := List.replicate 12 0 ++ [100, 102, 5, 6], adv := [1, 2, 3, 4, 5, 6, 7] }).toOption = none := by
   decide +kernel
+
+/-- **`memcopy` terminates**: for every word count `n`, pointers in the 32-bit address space, fuel
+    `≥ n + 4` and a cycle budget of `19·n + 25`, the executor completes (the result is then the one of
+    `memcopy_exact`): total correctness, not only partial. -/
+theorem memcopy_terminates (env : Env) (fuel : Nat) (vm : Vm) (n r0 w0 : Nat) (rest : List Nat)
+    (hs : vm.stack = n :: r0 :: w0 :: rest) (hrest : 13 ≤ rest.length)
+    (hr : r0 + n ≤ 4294967296) (hw : w0 + n ≤ 4294967296)
+    (hf : n + 4 ≤ fuel) (hb : vm.clk + 19 * n + 25 ≤ env.maxCycles) :
+    ∃ vm', Vm.exec env fuel Generated.mem_memcopy vm = .ok vm' ∧
+      vm'.stack = padN 16 rest ∧ vm'.mem = Memcopy.copyFwd vm.ctx n r0 w0 vm.mem := by
+  obtain ⟨vm', h⟩ := Memcopy.memcopy_total env fuel vm n r0 w0 rest hs hrest hr hw hf hb
+  obtain ⟨h1, h2, _⟩ := Memcopy.memcopy_spec env fuel vm vm' n r0 w0 rest hs hrest hr hw h
+  exact ⟨vm', h, h1, h2⟩
 
 /-- Zero length copies nothing; one more word is one more write after the shorter copy. -/
 theorem copyFwd_zero (ctx r w : Nat) (m : Mem) : Memcopy.copyFwd ctx 0 r w m = m := rfl
